@@ -76,7 +76,13 @@ fn split_routes(app: &mut AppSpec) -> bool {
                 let v = a.remove(&k).unwrap();
                 b.insert(k, v);
                 items.push(Item::Routes { path: path.clone(), methods: a });
-                items.push(Item::Routes { path, methods: b });
+                // the second piece may call the path params by other names: it is the same route all the same
+                let path_b = if path.contains(':') && t::chance(1, 2) {
+                    path.split('/').map(|seg| if seg.starts_with(':') { format!(":{}2", &seg[1..]) } else { seg.to_string() }).collect::<Vec<_>>().join("/")
+                } else {
+                    path
+                };
+                items.push(Item::Routes { path: path_b, methods: b });
                 did = true;
             }
             Item::Mount { prefix, mut app } => {
